@@ -258,7 +258,7 @@ func runC05(c *fw.Ctx) {
 		tag  string
 		page int
 	}
-	pcs := []pc{{"L4", 16}, {"L4", 20}, {"L6", 16}, {"L6", 20}, {"L6", 64}, {"L9", 16}, {"L9", 20}, {"L9", 64}, {"L5", 4096}, {"LP", 4096}}
+	pcs := []pc{{"L4", 16}, {"L4", 20}, {"L6", 16}, {"L6", 20}, {"L6", 64}, {"L9", 16}, {"L9", 20}, {"L9", 64}, {"L5", 4096}, {"LP", 4096}, {"LQ", 4096}}
 	c.R.Bounds["sequences"] = fmt.Sprintf("all sequences of length <=%d over 6-7 operations, from a fresh file and from a file with one synced write", maxLen)
 	c.R.Bounds["configs"] = fmt.Sprint(pcs)
 	c.R.Bounds["cli"] = "copy and sum-copy x {report on /dev/full larger than the 4 KiB buffer, layout mismatch, truncated source} x 2 source fills x archive all/0 x copy-nan: destination bytes before = after whenever the command fails"
@@ -289,6 +289,9 @@ func runC05(c *fw.Ctx) {
 		ml := maxLen
 		if x.tag == "LP" {
 			ml = maxLen - 1
+		}
+		if x.tag == "LQ" { // 1500-point batches over 5 pages: short sequences
+			ml = 3
 		}
 		var rec func(seq []c05Op)
 		rec = func(seq []c05Op) {
